@@ -66,6 +66,8 @@ def havoc_like(v: V, prefix: str) -> V:
         return ArrV(fresh(prefix, v.t.sort()))
     if isinstance(v, (TupleV, KwV, FuncV, BuiltinV, ClassV, CoroV, ExcV, BytesV, CollV, PlaceV, SelfV, GenV)):
         return v
+    if hasattr(v, "havoc"):
+        return v.havoc(prefix)
     raise Unsupported(f"havoc of {type(v).__name__}")
 
 
@@ -100,6 +102,8 @@ def terms_of(v: V) -> List:
         for k in sorted(v.fields):
             out += terms_of(v.fields[k])
         return out
+    if hasattr(v, "terms"):
+        return v.terms()
     return []
 
 
@@ -205,6 +209,12 @@ class Theory:
 
     def setitem(self, st, fr, cont, key, v):
         self._no("item assignment")
+
+    def empty_list(self, st, fr, hint):
+        return [(st, SeqV(0, [fresh("lst", z3.ArraySort(I, I))], IntL(), mutable=True))]
+
+    def on_loop_iteration(self, st, fr, lname, i) -> None:
+        pass
 
     def classdef(self, st, fr, n):
         self._no("nested class definition")
@@ -430,6 +440,7 @@ class Theory:
                     if ex2.kind != Exit.NORMAL:
                         out.append((s2, ex2))
                     else:
+                        self.on_loop_iteration(s2, fr, lname, i)
                         run_body(s2)
             se = s.fork()
             se.assume(i == it.count)
